@@ -126,7 +126,7 @@ def plan(states, cie, order=0):
             copies[marker_id(slot, "x")] = dict(
                 slot=slot, copy="x", fde=fde, fate=fate, obj="x", wins=False,
                 cie=(cie if slot & 1 else "default"), size=func_size(slot))
-    if order:
+    if order & 1:
         # Declare each object's function sections in reverse order first: the sections (and so the
         # functions' addresses) then run opposite to the FDEs in that object's .eh_frame.
         for role in ("a", "b", "d"):
@@ -149,6 +149,11 @@ def plan(states, cie, order=0):
 def arch_member_src(slot, fde, cie):
     return func_src(slot, "x", fde, "global", cie)
 
+
+# An object whose only content is a 4-byte zero word in .eh_frame: the shape of crtend.o's
+# terminator (too short to be a CIE or FDE).  With member field `order` & 2 it is linked between
+# a.o and d.o, so that .eh_frame contributions with FDEs follow it in the same output section.
+TRAILER_SRC = '.section .eh_frame,"a",@progbits\n.long 0\n'
 
 OBJ = {}          # asm source -> object path (filled before the worker pool is forked)
 AR = {}           # (arch tuple, cie) -> archive path
@@ -185,6 +190,8 @@ def member_inputs(m):
     for role in ("a", "d", "b"):
         if src[role]:
             files.append(OBJ[src[role]])
+        if role == "a" and order & 2:
+            files.append(OBJ[TRAILER_SRC])
     if arch:
         files.append(AR[(tuple(arch), cie)])
     return files, copies
@@ -245,6 +252,10 @@ def judge(path, m, copies):
     st["fate_deviations"] = dev
     # ---- .eh_frame
     sec = e.section(".eh_frame")
+    # With a trailer object in the middle of the inputs, zero words between records are the
+    # input's own bytes (GNU ld drops them, wild keeps them; the property is silent on them):
+    # decode through them and count them.
+    e.eh_frame_skip_zero = bool(order & 2)
     try:
         recs = e.eh_frame()
     except elfread.ElfError as ex:
@@ -261,6 +272,7 @@ def judge(path, m, copies):
             v.append(("eh_frame:tail", f"{len(tail)} bytes after the last record at {end:#x}: "
                       f"{tail[:16].hex()}"))
         st["terminator"] = len(tail) == 4
+        st["interior_zero_words"] = len(getattr(e, "eh_frame_zero_words", []))
     per_copy = {}
     for f in fdes:
         cid = addr2copy.get(f.pc_begin)
@@ -392,7 +404,8 @@ def digest_eh(path):
 def describe(m):
     states, cie, gc, kind, hdr, order = m
     return {"slots": state_str(states), "cie": cie, "gc": bool(gc), "kind": kind,
-            "eh_frame_hdr": bool(hdr), "sections_reversed": bool(order)}
+            "eh_frame_hdr": bool(hdr), "sections_reversed": bool(order & 1),
+            "eh_frame_trailer_object_after_a": bool(order & 2)}
 
 
 def replay_dict(m, extra=None):
@@ -400,9 +413,12 @@ def replay_dict(m, extra=None):
     src, copies, arch = plan(states, cie, order)
     d = dict(describe(m), member=[list(map(list, states)), cie, gc, kind, hdr, order],
              flags=member_flags(m),
-             inputs=["r.o"] + [f"{r}.o" for r in ("a", "d", "b") if src[r]] +
+             inputs=["r.o"] + [x for r in ("a", "d", "b") if src[r] or (r == "a" and order & 2)
+                              for x in ([f"{r}.o"] if src[r] else []) +
+                              (["t.o"] if r == "a" and order & 2 else [])] +
                     (["lib.a (" + " ".join(f"x{s}.o" for s, _f in arch) + ")"] if arch else []),
-             sources={f"{k}.s": s for k, s in src.items() if s},
+             sources=dict({f"{k}.s": s for k, s in src.items() if s},
+                          **({"t.s": TRAILER_SRC} if order & 2 else {})),
              archive_members={f"x{s}.s": arch_member_src(s, f, cie) for s, f in arch},
              how="python3 checks/c10.py --replay <this file> (keeps inputs and output in the "
                  "directory it prints); by hand: gcc -c each source, ar rc lib.a x*.o, "
@@ -461,6 +477,8 @@ def prepare(members, base):
     for m in members:
         src, _copies, arch = plan(m[0], m[1], m[5])
         srcs.update(s for s in src.values() if s)
+        if m[5] & 2:
+            srcs.add(TRAILER_SRC)
         if arch:
             archs.add((tuple(arch), m[1]))
             srcs.update(arch_member_src(s, f, m[1]) for s, f in arch)
@@ -495,10 +513,14 @@ def family(thorough):
             for gc, kind, hdr in itertools.product((1, 0), ("exe", "shared"), (1, 0)):
                 fam.append((states, "default", gc, kind, hdr, 0))
             fam.append((states, "default", 0, "exe", 1, 1))
+            for gc in (1, 0):
+                fam.append((states, "default", gc, "exe", 1, 2))
+            fam.append((states, "default", 1, "shared", 1, 3))
             for cie in ("personality", "signal"):
                 fam.append((states, cie, 1, "exe", 1, 0))
                 fam.append((states, cie, 1, "shared", 1, 0))
                 fam.append((states, cie, 0, "exe", 1, 1))
+                fam.append((states, cie, 1, "exe", 1, 2))
     else:
         for i, states in enumerate(multisets()):
             states = states[i % 4:] + states[:i % 4]       # vary which object gets which state
@@ -507,6 +529,7 @@ def family(thorough):
             fam.append((states, "default", 0, "exe", 1, 1))
             fam.append((states, "default", 1, "shared", 1, 0))
             fam.append((states, "default", 1, "exe", 0, 0))
+            fam.append((states, "default", i & 1, "exe", 1, 2))
     return fam
 
 
@@ -514,7 +537,8 @@ def sweep_family(thorough):
     sub = [s for s in itertools.product([("R", 1), ("G", 1), ("C", 1)], repeat=4)]
     if not thorough:
         sub = sub[:50]
-    return [(s, "default", 0, "exe", 1, i & 1) for i, s in enumerate(sub)]
+    return [(s, "default", 0, "exe", 1, (i & 1) | (2 if i % 4 >= 2 else 0))
+            for i, s in enumerate(sub)]
 
 
 # ------------------------------------------------------------------- native unwinder (thorough)
@@ -647,7 +671,7 @@ def main():
     sigs = set()
     deviations = {}
     hdr_absent = 0
-    totals = dict(n_fde=0, n_cie=0, retained=0, retained_with_fde=0)
+    totals = dict(n_fde=0, n_cie=0, retained=0, retained_with_fde=0, interior_zero_words=0)
     samples = []
     unw = None
     with vlib.scratch("c10") as base:
@@ -760,10 +784,14 @@ def main():
         "exhaustive": True,
         "family": ("all 8^4 ordered slot states x {gc,nogc} x {exe,shared} x {hdr,no hdr} with the "
                    "default CIE, + (nogc,exe,hdr,sections reversed); x {personality, signal} CIE "
-                   "shapes with (gc,exe,hdr) (gc,shared,hdr) (nogc,exe,hdr,sections reversed)") if chk.thorough else
+                   "shapes with (gc,exe,hdr) (gc,shared,hdr) (nogc,exe,hdr,sections reversed); trailer axis "
+                   "(an object whose .eh_frame is a lone 4-byte zero word, linked between a.o and "
+                   "d.o): default CIE (gc,exe,hdr) (nogc,exe,hdr) (gc,shared,hdr,sections reversed), "
+                   "other CIE shapes (gc,exe,hdr)") if chk.thorough else
                   ("330 multisets of slot states (multiset number i assigned to the slots rotated by i mod 4), default CIE: "
                    "(gc,exe,hdr) (nogc,exe,hdr) (nogc,exe,hdr,sections reversed) (gc,shared,hdr) "
-                   "(gc,exe,no hdr)"),
+                   "(gc,exe,no hdr) (gc for odd i,exe,hdr,trailer object with a lone zero word in "
+                   ".eh_frame between a.o and d.o)"),
         "links": n_eval + n_sweep,
         "link_failed": link_failed,
         "sweep_members": len(sweep), "sweep_links": n_sweep,
@@ -774,6 +802,7 @@ def main():
         "fdes_in_outputs": totals["n_fde"], "cies_in_outputs": totals["n_cie"],
         "retained_function_copies": totals["retained"],
         "retained_copies_with_input_fde": totals["retained_with_fde"],
+        "interior_zero_words_in_outputs": totals["interior_zero_words"],
         "hdr_requested_but_absent_with_fdes": hdr_absent,
         "fate_deviations_from_design": deviations,
         "native_unwinder": unw,
